@@ -64,7 +64,7 @@ fn main() {
         "p3_commit::PolynomialSpace for TwoAdicMultiplicativeCoset: selectors_at_point, vanishing_poly_at_point, evaluate_periodic_column_at; PrimeCharacteristicRing::exp_power_of_2 (native side, same symbols)",
     ].iter().map(|s| s.to_string()).collect();
     let thorough = args.tier == "thorough";
-    let max_log = if thorough { 4 } else { 3 };
+    let max_log = if thorough { 6 } else { 3 };
     let mut violations: Vec<Value> = Vec::new();
     let mut solver = Solver::new(SolverKind::Z3, P, if thorough { 60_000 } else { 15_000 });
     let pcs = mk_pcs();
@@ -87,6 +87,11 @@ fn main() {
                 let multi: Vec<usize> = if let Some(rest) = gadget.strip_prefix("pm_") { rest.split('_').map(|x| x.parse().unwrap()).collect() } else { vec![] };
                 let period = match gadget { "periodic1" => 1usize, "periodic2" | "periodic2z" => 2, "periodic4" | "periodic4z" | "periodic4s" | "periodic4m" => 4, _ => multi.iter().copied().max().unwrap_or(0) };
                 if period > (1 << log_size) {
+                    continue;
+                }
+                // multi-column calls at log sizes 5 and 6 produce quotients the solver does not decide
+                // (measured: 16 undecided obligations); they stay at log sizes <= 4
+                if !multi.is_empty() && log_size > 4 {
                     continue;
                 }
                 n_inst += 1;
